@@ -14,7 +14,7 @@
     changed no link anywhere. *)
 From Coq Require Import String Ascii List Bool ZArith.
 From Raven Require Import Base.GoStr Model.Store Model.Ops Model.Deliver Spec.UidSpec Spec.DeliverSpec
-  Proof.DeliverStore Proof.DeliverWorld Proof.DeliverHist Proof.DeliverRefuted.
+  Proof.DeliverStore Proof.DeliverWorld Proof.DeliverHist Proof.DeliverFresh Proof.DeliverRefuted.
 Import ListNotations.
 Local Open Scope Z_scope.
 
@@ -24,7 +24,7 @@ Local Open Scope Z_scope.
     on any store (APPEND, COPY, UID COPY, STORE incl. the Junk move, EXPUNGE,
     CLOSE, CREATE, DELETE, RENAME incl. RENAME INBOX; inside or outside C03's
     finding classes) and earlier LMTP transactions — for every folder,
-    recipient list, message and clock: outside the three finding classes the
+    recipient list, message and clock: outside the two finding classes the
     property holds. *)
 Theorem c01_accept_iff_visible : forall roles h folder rs p clk,
   classify (wrun h (w0 roles)) folder rs p clk = None ->
@@ -43,8 +43,8 @@ Theorem c01_invariant_every_history : forall roles h, WInv (wrun h (w0 roles)).
 Proof. intros roles h. apply wrun_WInv, WInv_w0. Qed.
 Print Assumptions c01_invariant_every_history.
 
-(** a position answered 4xx/5xx adds nothing, also inside classes CSingle554
-    and CNoBoundary (only a reply taken from another attempt can break it) *)
+(** a position answered 4xx/5xx adds nothing, also inside class CNoBoundary
+    (only a reply taken from another attempt can break it) *)
 Theorem c01_reject_adds_nothing : forall w folder rs p clk,
   WInv w ->
   let '(w', replies, atts) := lmtp_data w folder rs p clk in
@@ -53,9 +53,10 @@ Theorem c01_reject_adds_nothing : forall w folder rs p clk,
 Proof. exact c01_reject_adds_nothing_l. Qed.
 Print Assumptions c01_reject_adds_nothing.
 
-(** one reply per recipient whenever the message parses *)
+(** one reply per recipient — unconditional since raven aeac4b2 (a refused
+    message is answered 554 once per recipient) *)
 Theorem c01_one_reply_per_recipient : forall w folder rs p clk,
-  p_ok p = true -> length (snd (fst (lmtp_data w folder rs p clk))) = length rs.
+  length (snd (fst (lmtp_data w folder rs p clk))) = length rs.
 Proof. exact c01_one_reply_per_recipient_l. Qed.
 Print Assumptions c01_one_reply_per_recipient.
 
@@ -67,6 +68,23 @@ Theorem c01_mismatch_needs_duplicate : forall (pre post : list attempt) (a : att
   mismatch (results_of (pre ++ a :: post)) a = false.
 Proof. exact c01_mismatch_needs_duplicate_l. Qed.
 Print Assumptions c01_mismatch_needs_duplicate.
+
+(** ... and it cannot occur at all when UIDNEXT is truthful in every store: the
+    outcome of an attempt is then a function of the recipient string.  Every
+    operation keeps UIDNEXT truthful since raven 02d2f67 / 30e4be8 (C03), so
+    the class is unreachable through the protocol. *)
+Theorem c01_dup_class_needs_stale : forall w folder rs p clk,
+  WFresh w -> target_folder folder p <> [] ->
+  classify w folder rs p clk <> Some CDupLastResult.
+Proof. exact c01_dup_class_needs_stale_l. Qed.
+Print Assumptions c01_dup_class_needs_stale.
+
+(** C01 on worlds with truthful UIDNEXT: the missing boundary is the only class *)
+Theorem c01_holds_when_fresh : forall w folder rs p clk,
+  WInv w -> WFresh w -> target_folder folder p <> [] -> is_noboundary (p_shape p) = false ->
+  spec_C01 w folder rs p clk.
+Proof. exact c01_holds_when_fresh_l. Qed.
+Print Assumptions c01_holds_when_fresh.
 
 (** acceptance is not withheld: when every store's UIDNEXT is above its UIDs
     (e.g. every store has a C03-clean history), a parsable message is accepted
@@ -98,47 +116,47 @@ Example c01_clean_example :
     = [R250; R250; R250; R250; R550; R550].
 Proof. vm_compute. split; reflexivity. Qed.
 
-(** ---- refuted parts: raven's current code violates the statement ------------- *)
+(** regression examples: the repaired behaviours.  A refused message is
+    answered once per recipient (was: one 554, class single_554); after
+    "deliver; UID COPY 1 INBOX" (and the gap history) the next deliveries are
+    accepted, duplicates included (was: 550 / 250 250 with one message) *)
+Example c01_repaired_single_554 :
+  classify (w0 []) INBOX [U1; U2] p_noparse clk0 = None /\
+  snd (fst (lmtp_data (w0 []) INBOX [U1; U2] p_noparse clk0)) = [R554; R554].
+Proof. vm_compute. split; reflexivity. Qed.
+Example c01_repaired_stale_uidnext :
+  classify (wrun h_stale (w0 [])) INBOX [U1; U1] p_plain clk0 = None /\
+  snd (fst (lmtp_data (wrun h_stale (w0 [])) INBOX [U1; U1] p_plain clk0)) = [R250; R250] /\
+  classify (wrun h_gap (w0 [])) INBOX [U1; U1] p_plain clk0 = None /\
+  snd (fst (lmtp_data (wrun h_gap (w0 [])) INBOX [U1; U1] p_plain clk0)) = [R250; R250].
+Proof. vm_compute. repeat split. Qed.
 
-(** ParseMessage / ValidateMessage failure: one 554 for two recipients *)
-Theorem c01_refuted_single_554 :
-  exists w folder rs p clk, classify w folder rs p clk = Some CSingle554 /\ ~ spec_C01 w folder rs p clk.
-Proof. exact refuted_single_554. Qed.
-Print Assumptions c01_refuted_single_554.
+(** ---- refuted parts ------------------------------------------------------------- *)
 
-(** root multipart/* without boundary: 250, linked, zero part rows — BODY[] is empty *)
+(** raven's current code: root multipart/* without boundary: 250, linked, zero
+    part rows — BODY[] is empty *)
 Theorem c01_refuted_noboundary :
   exists w folder rs p clk, classify w folder rs p clk = Some CNoBoundary /\ ~ spec_C01 w folder rs p clk.
 Proof. exact refuted_noboundary. Qed.
 Print Assumptions c01_refuted_noboundary.
 
-(** "deliver; UID COPY 1 INBOX; deliver to <u>,<u>": the first attempt fails on
-    UNIQUE(mailbox_id, uid), the second succeeds, both positions are answered
-    250 from the one map entry: two acceptances, one message *)
-Theorem c01_refuted_duplicate_rcpt_map :
-  exists h folder rs p clk,
-    classify (wrun h (w0 [])) folder rs p clk = Some CDupLastResult /\
-    ~ spec_C01 (wrun h (w0 [])) folder rs p clk.
+(** LATENT in raven's current code (result map keyed by recipient string, reply
+    loop reading it): on a world whose INBOX has UIDNEXT behind an existing UID
+    — not produced by any operation any more, [c01_dup_class_needs_stale] —
+    "<u>,<u>" is answered 250 250 with one new message ... *)
+Theorem c01_refuted_duplicate_rcpt_map_latent :
+  exists w folder rs p clk, WInv w /\
+    classify w folder rs p clk = Some CDupLastResult /\
+    snd (fst (lmtp_data w folder rs p clk)) = [R250; R250] /\
+    ~ spec_C01 w folder rs p clk.
 Proof. exact refuted_dup_last_result. Qed.
-Print Assumptions c01_refuted_duplicate_rcpt_map.
+Print Assumptions c01_refuted_duplicate_rcpt_map_latent.
 
-(** the mirror image: "deliver; UID COPY 1 INBOX twice; expunge UID 2; deliver to
-    <u>,<u>": the first attempt stores a message, the second fails, both
-    positions are answered 550 — a rejection that left a new message *)
-Theorem c01_refuted_duplicate_rejected_but_stored :
-  exists h folder rs p clk,
-    classify (wrun h (w0 [])) folder rs p clk = Some CDupLastResult /\
-    snd (fst (lmtp_data (wrun h (w0 [])) folder rs p clk)) = [R550; R550] /\
-    ~ spec_C01 (wrun h (w0 [])) folder rs p clk.
+(** ... or 550 550 with one new message (a rejection that stored a message) *)
+Theorem c01_refuted_duplicate_rejected_but_stored_latent :
+  exists w folder rs p clk, WInv w /\
+    classify w folder rs p clk = Some CDupLastResult /\
+    snd (fst (lmtp_data w folder rs p clk)) = [R550; R550] /\
+    ~ spec_C01 w folder rs p clk.
 Proof. exact refuted_dup_rejected_but_stored. Qed.
-Print Assumptions c01_refuted_duplicate_rejected_but_stored.
-
-(** the hypothesis of [c01_no_spurious_refusal] is needed: after "deliver; UID
-    COPY 1 INBOX" the next delivery to an acceptable recipient is refused (550)
-    — C03's class copy_stale_uidnext seen from LMTP *)
-Theorem c01_refuted_stale_uidnext :
-  exists h folder rs p clk,
-    p_ok p = true /\ forallb (fun r => deliverable (wrun h (w0 [])) folder r p) rs = true /\
-    snd (fst (lmtp_data (wrun h (w0 [])) folder rs p clk)) = [R550].
-Proof. exact refuted_stale_uidnext_refusal. Qed.
-Print Assumptions c01_refuted_stale_uidnext.
+Print Assumptions c01_refuted_duplicate_rejected_but_stored_latent.
